@@ -1,5 +1,5 @@
 """Coinswap: C01, C02 (Coinswap.tla / CoinswapTrace.tla / harness/cmd/coinswap)."""
-from props import ModuleCheck, T
+from props import ModuleCheck, T, bundled
 
 CS_CLAUSES_C01 = ["C01_ShareValue", "C01_LegRule", "C01_ExactInMax", "C01_ExactOutTight"]
 CS_CLAUSES_C02 = ["C02_SwapSender", "C02_SwapRecipient", "C02_Frame", "C02_Bounds", "C02_AddTakesAtMost",
@@ -17,6 +17,8 @@ CS_RND = T(
      dict(n=10, len=40, procs=2, cfg=CS_CFG_C)],
     [dict(n=60, len=40, procs=6, cfg=CS_CFG_A), dict(n=60, len=40, procs=6, cfg=CS_CFG_B),
      dict(n=60, len=40, procs=4, cfg=CS_CFG_C)])
+# multi-message transactions (runs of one signer's messages delivered as one real transaction)
+bundled(CS_RND)
 CS_GEN = T([dict(cfg="GEN_Coinswap.cfg", num=10, depth=13, seeds=6)],
            [dict(cfg="GEN_Coinswap.cfg", num=50, depth=16, seeds=14)])
 CS_SCN = [dict(file="scenarios/coinswap_F1.ndjson", cfg=CS_CFG_A + ",epilogue=0"),
@@ -33,7 +35,7 @@ CS_MC_C01 = T([CS_MC_A], CS_MC_BIG)
 CS_MC_C02 = T([CS_MC_A, CS_MC_B], CS_MC_BIG)
 
 # histories recorded (VERIF_RECORD_DIR) for the cross-module checks C11 / C12
-RECORD = [dict(binary="coinswap", n=T(3, 12), len=30, cfg=CS_CFG_A)]
+RECORD = [dict(binary="coinswap", n=T(3, 12), len=30, cfg=CS_CFG_A + ",bundle=30")]
 
 CS_ASSUME = ["TLC 1.8, SANY, CommunityModules Json", "Go toolchain, cosmos-sdk x/bank, x/auth",
              "harness projection functions (balances, supplies, pool registry, params read from the stores)",
